@@ -149,3 +149,111 @@ pub proof fn lemma_trim_close(x: int, m: int, w: int, nbits: int, rem: int, tie:
     assert(a < tie);
     assert(2 * a * pn < 2 * tie * pn) by (nonlinear_arith) requires a < tie, pn > 0;
 }
+// ---- radix 2^g digits ----
+pub open spec fn rfdig(x: int, m: int, g: int, w: int) -> int { (x * ipow(p2(g), m)) / p2(w) }
+pub open spec fn rfrem(x: int, m: int, g: int, w: int) -> int { (x * ipow(p2(g), m)) % p2(w) }
+// the fraction as the radix-2^g writer wants it: exactly `nbits` significant bits at the top of the word (bit w - nbits is the lowest set bit)
+pub open spec fn top_bits(x: int, nbits: int, w: int) -> bool {
+    if nbits == 0 { x == 0 } else { x % p2(w - nbits) == 0 && (x / p2(w - nbits)) % 2 == 1 }
+}
+pub proof fn lemma_rfdig_intro(x: int, m: int, g: int, w: int, d: int, r: int)
+    requires w >= 0, 0 <= r < p2(w), x * ipow(p2(g), m) == d * p2(w) + r
+    ensures rfdig(x, m, g, w) == d, rfrem(x, m, g, w) == r
+{
+    lemma_p2_pos(w);
+    lemma_fundamental_div_mod_converse(x * ipow(p2(g), m), p2(w), d, r);
+}
+// an odd multiple of 2^e is not a multiple of 2^w for e < w: after k digits the remainder of a fraction with nbits significant bits is non-zero while g k < nbits
+pub proof fn lemma_top_bits_nonzero(x: int, nbits: int, w: int, g: int, k: int)
+    requires 1 <= g, 0 <= k, 0 < nbits <= w, top_bits(x, nbits, w), g * k < nbits, x >= 0
+    ensures rfrem(x, k, g, w) != 0
+{
+    let e = w - nbits; let pe = p2(e); let o = x / pe;
+    lemma_p2_pos(e); lemma_p2_pos(w); lemma_p2_pos(g * k); lemma_pow_radix_any(g, k);
+    lemma_fundamental_div_mod(x, pe);
+    let t = p2(g * k);
+    assert(ipow(p2(g), k) == t);
+    assert(g * k >= 0) by (nonlinear_arith) requires g >= 1, k >= 0;
+    lemma_p2_add(e, g * k); lemma_p2_pos(e + g * k);
+    let s = e + g * k;   // < w
+    lemma_p2_add(s, w - s); lemma_p2_pos(w - s); lemma_p2_step(w - s);
+    let ps = p2(s);
+    assert(x * t == o * ps) by (nonlinear_arith) requires x == pe * o, ps == pe * t;
+    if (x * t) % p2(w) == 0 {
+        lemma_fundamental_div_mod(x * t, p2(w));
+        let j = (x * t) / p2(w);
+        // o * ps == j * ps * 2^(w-s)  ->  o == j * 2 * 2^(w-s-1)
+        let q = p2(w - s - 1);
+        assert(o == 2 * (j * q)) by (nonlinear_arith) requires o * ps == p2(w) * j, p2(w) == ps * p2(w - s), p2(w - s) == 2 * q, ps > 0;
+        assert(o % 2 == 0) by { lemma_fundamental_div_mod_converse(o, 2, j * q, 0); }
+    }
+}
+pub proof fn lemma_pow_radix_any(g: int, n: int)
+    requires 1 <= g, n >= 0
+    ensures ipow(p2(g), n) == p2(g * n)
+    decreases n
+{
+    if n == 0 { assert(g * 0 == 0); lemma2_to64(); assert(p2(0) == 1); }
+    else {
+        lemma_pow_radix_any(g, n - 1);
+        assert(g * n == g * (n - 1) + g) by (nonlinear_arith);
+        assert(g * (n - 1) >= 0) by (nonlinear_arith) requires g >= 1, n >= 1;
+        lemma_p2_add(g * (n - 1), g);
+        assert(p2(g) * p2(g * (n - 1)) == p2(g * (n - 1)) * p2(g)) by (nonlinear_arith);
+    }
+}
+// the upper half-word carries the same radix-2^g expansion
+pub proof fn lemma_rfrac_half(x: int, xh: int, m: int, g: int, hw: int)
+    requires hw >= 1, x == xh * p2(hw), xh >= 0, m >= 0, g >= 1
+    ensures rfdig(x, m, g, 2 * hw) == rfdig(xh, m, g, hw), rfrem(x, m, g, 2 * hw) == rfrem(xh, m, g, hw) * p2(hw),
+            ordi(rfrem(x, m, g, 2 * hw), p2(2 * hw - 1)) == ordi(rfrem(xh, m, g, hw), p2(hw - 1))
+{
+    let t = ipow(p2(g), m); let ph = p2(hw); let pw = p2(2 * hw);
+    lemma_p2_pos(hw); lemma_p2_add(hw, hw); lemma_p2_add(hw - 1, hw); lemma_p2_pos(hw - 1);
+    let n = xh * t;
+    lemma_fundamental_div_mod(n, ph); lemma_mod_bound(n, ph);
+    let q = n / ph; let r = n % ph;
+    assert(x * t == q * pw + r * ph) by (nonlinear_arith) requires x == xh * ph, n == xh * t, n == ph * q + r, pw == ph * ph;
+    assert(0 <= r * ph < pw) by (nonlinear_arith) requires 0 <= r < ph, pw == ph * ph, ph > 0;
+    lemma_rfdig_intro(x, m, g, 2 * hw, q, r * ph);
+    let hh = p2(hw - 1);
+    assert(p2(2 * hw - 1) == hh * ph);
+    assert((r * ph < hh * ph) == (r < hh) && (r * ph == hh * ph) == (r == hh)) by (nonlinear_arith) requires ph > 0;
+}
+// top_bits of the upper half
+pub proof fn lemma_top_bits_upper(x: int, hw: int, nbits: int)
+    requires hw >= 1, 0 <= nbits < hw, x >= 0, top_bits(x, nbits, 2 * hw)
+    ensures x == (x / p2(hw)) * p2(hw), top_bits(x / p2(hw), nbits, hw), x / p2(hw) >= 0
+{
+    lemma_p2_pos(hw);
+    if nbits == 0 { lemma_fundamental_div_mod_converse(0, p2(hw), 0, 0); lemma_p2_pos(hw - nbits); lemma_small_mod(0, p2(hw - nbits) as nat); }
+    else {
+        lemma_frac_upper(x, hw, nbits);
+        let ph = p2(hw); let pd = p2(hw - nbits); let pb = p2(2 * hw - nbits); let xh = x / ph;
+        lemma_p2_pos(hw - nbits); lemma_p2_add(hw, hw - nbits); lemma_p2_pos(2 * hw - nbits);
+        // x / pb == xh / pd
+        lemma_fundamental_div_mod(xh, pd);
+        let j = xh / pd;
+        assert(x == pb * j) by (nonlinear_arith) requires x == xh * ph, xh == pd * j, pb == ph * pd;
+        lemma_fundamental_div_mod_converse(x, pb, j, 0);
+    }
+}
+// an integer with exactly nbits significant bits needs ceil(nbits / g) radix-2^g digits, and every prefix of fewer digits leaves a non-zero rest
+pub proof fn lemma_int_digits_radix(x: int, nbits: int, g: int, n: int)
+    requires 1 <= g, 0 <= nbits, n == (nbits + g - 1) / g, 0 <= x < p2(nbits), nbits > 0 ==> x >= p2(nbits - 1)
+    ensures x < ipow(p2(g), n), n >= 0, forall|j: int| 0 <= j < n ==> x >= #[trigger] ipow(p2(g), j)
+{
+    let a = nbits + g - 1;
+    lemma_fundamental_div_mod(a, g); lemma_mod_bound(a, g);
+    assert(n >= 0 && g * n >= nbits && g * n <= nbits + g - 1) by (nonlinear_arith) requires a == g * n + a % g, 0 <= a % g < g, a == nbits + g - 1, g >= 1, nbits >= 0;
+    lemma_pow_radix_any(g, n);
+    lemma_p2_mono(nbits, g * n);
+    assert forall|j: int| 0 <= j < n implies x >= #[trigger] ipow(p2(g), j) by {
+        lemma_pow_radix_any(g, j);
+        assert(g * j <= nbits - 1 && g * j >= 0) by (nonlinear_arith) requires g * n <= nbits + g - 1, 0 <= j <= n - 1, g >= 1;
+        lemma_p2_mono(g * j, nbits - 1);
+    }
+}
+pub proof fn lemma_radix_base()
+    ensures p2(1) == 2, p2(3) == 8, p2(4) == 16, p2(0) == 1
+{ lemma2_to64(); }
